@@ -137,7 +137,12 @@ def run_stream(ctx, st, safebin):
             states.append({"ev": "st", "kind": r["ev"], "done": r.get("done", 0) if not r.get("quit") else 0, "big": big,
                            "lines": lines_of(lb) if not big else [], "n": lb["n"], "row": r["row"], "off": r["off"], "top": r["top"],
                            "rows": r.get("rows", 0), "hu": lb["hu"], "hn": lb["hn"], "ids": [b["bid"] + 1 if b else 0 for b in r["bufs"]]})
-    res = {"complete": complete, "rc": rc, "timed_out": to, "nrec": len(recs), "states": states, "stderr": err[-4000:]}
+    if vi and re.search(r"\d{8,}", body.decode()):
+        # a count of 10^8 or more overflows the window arithmetic (signed wrap-around): cursor / window positions are not required
+        for x in states:
+            x["done"] = 0
+    maxn = max([r.get("n", 0) for r in recs if r.get("ev") == "ec"] + [x["n"] for x in states] + [0])
+    res = {"complete": complete, "rc": rc, "timed_out": to, "nrec": len(recs), "states": states, "stderr": err[-4000:], "maxn": maxn}
     if not complete:
         m = re.search(r"SUMMARY: (\S+): (\S+)(?: \S+ in (\S+))?", err) or re.search(r"(runtime error): ([^\n]{0,80})", err)
         res["sig"] = "timeout" if to else (" ".join(x for x in m.groups() if x) if m else "rc=%s" % rc)
@@ -306,10 +311,13 @@ def main(ctx, args):
     fixed("cut-message-narrow", True, "w:p\n", (2, 2), "x" * 700 + "\n" + "漢" * 300 + "\nshort\n")
     fixed("stale-mark-column", True, "S22\r\x1b}gldw`yydd`'")
     fixed("ctrl-r-multibyte", True, "A\x12ש\x1b")
+    fixed("ctrl-k-multibyte", True, "i\x0b😀\x1b")
+    fixed("self-executing-register", False, "rs b\n.\nra : a\n.\nra : a\n")
+    fixed("change-in-empty-buffer", True, "ia\nb\x1bggdGsx\x1bggdGcwy\x1bggdGCz\x1b")
     with ThreadPoolExecutor(NCPU) as ex:
         results = list(ex.map(lambda s: run_stream(ctx, s, safebin), streams + corpus))
     st = dict(streams=len(streams), ex_streams=sum(1 for s in streams if not s["vi"]), vi_streams=sum(1 for s in streams if s["vi"]),
-              set_aside_nullable_loop=len(risky), records=0, incomplete=0, inconclusive_huge_count=0, states_validated=0, invariant_violations=0,
+              set_aside_nullable_loop=len(risky), records=0, incomplete=0, inconclusive_huge_count=0, inconclusive_growth=0, states_validated=0, invariant_violations=0,
               by_origin={})
     for s, r in zip(streams + corpus, results):
         st["records"] += r["nrec"]
@@ -318,7 +326,11 @@ def main(ctx, args):
         st["by_origin"][o] = st["by_origin"].get(o, 0) + 1
         if not r["complete"]:
             body = txt(s["cps"])
-            if r["timed_out"] and s["vi"] and re.search(r"\d{8,}", body) and r["nrec"] > 1:
+            if r["timed_out"] and r["maxn"] >= 20000:
+                # the stream doubled the buffer again and again (g/./pu, yGP ...): exponential work, still progressing
+                st["inconclusive_growth"] += 1
+                continue
+            if r["timed_out"] and s["vi"] and re.search(r"\d{8,}", body):
                 # a count of 10^8 or more before } { J . and the like is that many cheap iterations: slow, not stuck
                 st["inconclusive_huge_count"] += 1
                 continue
@@ -398,6 +410,7 @@ def main(ctx, args):
                       ["stdin is not a terminal: keys arrive without timing, resize signals are not delivered",
                        "shell-outs run a stub filter instead of the user's shell",
                        "^Z (suspend) is removed from vi streams",
+                       "a stream that keeps doubling the buffer (20000 lines or more when the time is up) is exponential work, not a hang: inconclusive",
                        "work proportional to a typed count is not a hang: a vi stream with a count of 10^8 or more that exceeds the time bound is inconclusive, not a violation",
                        "streams whose patterns loop over an empty-matching group are set aside (known finding of C11: the matcher backtracks without bound); "
                        "one corpus stream replays it",
